@@ -77,6 +77,16 @@ type BurstCfg struct {
 	Rounds    int   `json:"rounds"`
 }
 
+// KeepupCfg: Producers goroutines insert PerProd items each (item = (p*Stride+k) mod Items)
+// against a free-running consumer; nobody closes the queue.
+type KeepupCfg struct {
+	Producers int `json:"producers"`
+	PerProd   int `json:"per_producer"`
+	Items     int `json:"items"`
+	Stride    int `json:"stride"`
+	Procs     int `json:"gomaxprocs"`
+}
+
 // StressCfg is the input of a stress case.
 type StressCfg struct {
 	Producers int    `json:"producers"`
@@ -102,7 +112,8 @@ type Case struct {
 	Broken  bool           `json:"broken,omitempty"`
 	Burst   *BurstCfg      `json:"burst,omitempty"`
 	BurstIn [][3]int       `json:"burst_ins,omitempty"` // item, calls, trues
-	Ping    int            `json:"ping,omitempty"`      // rounds
+	Keepup  *KeepupCfg     `json:"keepup,omitempty"`
+	Ping    int            `json:"ping,omitempty"` // rounds
 	Stalled bool           `json:"stalled,omitempty"`
 	CtxErr  string         `json:"ctxerr,omitempty"` // cancelled | short
 	ErrKind string         `json:"errkind,omitempty"`
@@ -737,6 +748,77 @@ func runBurst1(cfg BurstCfg) (ins [][3]int, length int, dels [][2]int, broken bo
 	return
 }
 
+// runKeepup: producers run freely against a consumer that keeps up, so the
+// queue keeps oscillating between empty and non-empty.  The queue is NOT
+// closed when the producers are done: the consumer has to get everything by
+// the wake-ups of the insertions alone.  stalled = the consumer made no
+// progress for stallAfter although accepted insertions are undelivered.
+func runKeepup(cfg KeepupCfg, stallAfter time.Duration) (ins, del map[string]int, stalled bool) {
+	if cfg.Procs > 0 {
+		defer runtime.GOMAXPROCS(runtime.GOMAXPROCS(cfg.Procs))
+	}
+	q := coalesce.NewQueue()
+	ctx, cancel := context.WithCancel(context.Background())
+	defer cancel()
+	ins, del = map[string]int{}, map[string]int{}
+	delv := make([]int64, cfg.Items)
+	var got int64
+	go func() {
+		defer func() { recover() }()
+		for {
+			i, d, err := q.Next(ctx)
+			if err != nil {
+				return
+			}
+			if id, ok := i.(int); ok && id >= 0 && id < cfg.Items {
+				atomic.AddInt64(&delv[id], 1+int64(d))
+			}
+			atomic.AddInt64(&got, 1+int64(d))
+		}
+	}()
+	insv := make([]int64, cfg.Items)
+	var accepted int64
+	var wg sync.WaitGroup
+	for p := 0; p < cfg.Producers; p++ {
+		p := p
+		wg.Add(1)
+		go func() {
+			defer wg.Done()
+			defer func() { recover() }()
+			for k := 0; k < cfg.PerProd; k++ {
+				it := (p*cfg.Stride + k) % cfg.Items
+				if _, err := q.Insert(it); err == nil {
+					atomic.AddInt64(&insv[it], 1)
+					atomic.AddInt64(&accepted, 1)
+				}
+			}
+		}()
+	}
+	wg.Wait()
+	want := atomic.LoadInt64(&accepted)
+	last, lastChange := atomic.LoadInt64(&got), time.Now()
+	for atomic.LoadInt64(&got) < want {
+		time.Sleep(200 * time.Microsecond)
+		if g := atomic.LoadInt64(&got); g != last {
+			last, lastChange = g, time.Now()
+		} else if time.Since(lastChange) > stallAfter {
+			stalled = true
+			atomic.AddInt32(&hangs, 1)
+			break
+		}
+	}
+	cancel()
+	for it := 0; it < cfg.Items; it++ {
+		if v := atomic.LoadInt64(&insv[it]); v > 0 {
+			ins[fmt.Sprint(it)] = int(v)
+		}
+		if v := atomic.LoadInt64(&delv[it]); v > 0 {
+			del[fmt.Sprint(it)] = int(v)
+		}
+	}
+	return
+}
+
 // runPing: one producer and one consumer in lock-step.  The producer inserts
 // an item the moment the previous one was delivered, i.e. while the consumer
 // is on its way from an empty next() into the select -- the window in which a
@@ -951,6 +1033,8 @@ func caseTerm(c Case) string {
 			el[i] = fmt.Sprintf("(%s, %s, %s)", nlit(t[0]), nlit(t[1]), nlit(t[2]))
 		}
 		return fmt.Sprintf("CBurst %s %s %s %s", vh.List(el), vh.Nat(c.FinalLen), pairsTerm(c.Dels), vh.Bool(c.Broken))
+	case c.Keepup != nil:
+		return fmt.Sprintf("CKeepup %s %s %s", totalsTerm(c.Ins), totalsTerm(c.Del), vh.Bool(c.Stalled))
 	case c.Ping > 0:
 		return fmt.Sprintf("CPing %s %s", nlit(c.Ping), vh.Bool(c.Stalled))
 	case c.CtxErr != "":
@@ -1131,6 +1215,21 @@ func (e *emitter) addBurst(family string, cfg BurstCfg) {
 	e.emit(c)
 }
 
+func (e *emitter) addKeepup(family string, cfg KeepupCfg) {
+	if tooManyHangs() {
+		e.meta.Hist("skipped-after-hangs")
+		return
+	}
+	ins, del, st := runKeepup(cfg, 10*time.Second)
+	e.meta.Hist("keepup-run")
+	if st {
+		e.meta.Hist("keepup-stalled")
+	}
+	b, _ := json.Marshal(cfg)
+	e.meta.Count(family, "K"+string(b), true, map[string]interface{}{"family": family, "cfg": cfg, "stalled": st})
+	e.emit(Case{Family: family, Keepup: &cfg, Ins: ins, Del: del, Stalled: st})
+}
+
 func (e *emitter) addPing(family string, rounds int) {
 	if tooManyHangs() {
 		return
@@ -1155,6 +1254,8 @@ func (e *emitter) replayCase(family string, c Case) {
 		e.addBulk(family, c.Bulk)
 	case c.Burst != nil:
 		e.addBurst(family, *c.Burst)
+	case c.Keepup != nil:
+		e.addKeepup(family, *c.Keepup)
 	case c.Ping > 0:
 		e.addPing(family, c.Ping)
 	case c.CtxErr != "":
@@ -1424,7 +1525,7 @@ func main() {
 			time.Sleep(time.Hour)
 		}
 	}()
-	meta := vh.NewMeta("corpus; mode E: every canonical sequence of <=L operations (quick L=5, thorough L=6) over {Insert 0, Insert 1, Next(cancelled ctx), Next(1ms ctx), Close, Len, IsClosed} and every canonical sequence of L+1 operations over the same alphabet without Next(1ms ctx) and IsClosed, each followed by Len, Close and 3 draining Next, plus seeded random sequences of 4..40 operations over 2-3 items; mode S: blind depth-first enumeration of the schedules of small producer/consumer/Close/Cancel configurations under the barrier scheduler plus seeded random walks over 1-2 producers (1-2 inserts each, items {0,1}) x consumer (1-4 Next) x Close x Cancel, each trace kept only when reproduced; bulk: 255..65537 insertions of one pending item, 1..300 distinct pending items, all pairs of items of mixed Go types (int, string, int64, nil, pointers, struct); burst: 2-16 goroutines released together insert the same / a few items into fresh queues with nobody consuming, then concurrent Closes; ping: producer and consumer in lock-step (4 x 20000 rounds); ctx error kind; stress: free-running producers with one consumer. distinct = distinct operation sequence resp. distinct (programs, recorded trace); non-trivial = (E) an accepted Insert and a Next that returned an item, (S) at least one producer step and one consumer step")
+	meta := vh.NewMeta("corpus; mode E: every canonical sequence of <=L operations (quick L=5, thorough L=6) over {Insert 0, Insert 1, Next(cancelled ctx), Next(1ms ctx), Close, Len, IsClosed} and every canonical sequence of L+1 operations over the same alphabet without Next(1ms ctx) and IsClosed, each followed by Len, Close and 3 draining Next, plus seeded random sequences of 4..40 operations over 2-3 items; mode S: blind depth-first enumeration of the schedules of small producer/consumer/Close/Cancel configurations under the barrier scheduler plus seeded random walks over 1-2 producers (1-2 inserts each, items {0,1}) x consumer (1-4 Next) x Close x Cancel, each trace kept only when reproduced; bulk: 255..65537 insertions of one pending item, 1..300 distinct pending items, all pairs of items of mixed Go types (int, string, int64, nil, pointers, struct); burst: 2-16 goroutines released together insert the same / a few items into fresh queues with nobody consuming, then concurrent Closes; ping: producer and consumer in lock-step (4 x 20000 rounds); keepup: 1-3 free-running producers (30000 inserts each, distinct and repeated items) against a consumer that keeps up, queue not closed, stall watchdog; ctx error kind; stress: free-running producers with one consumer. distinct = distinct operation sequence resp. distinct (programs, recorded trace); non-trivial = (E) an accepted Insert and a Next that returned an item, (S) at least one producer step and one consumer step")
 	e := &emitter{dir: o.Out, cf: vh.NewCaseFile(), meta: meta, limit: 1500}
 
 	if o.Replay != "" {
@@ -1580,6 +1681,16 @@ func main() {
 	}
 	for i := 0; i < nping; i++ {
 		e.addPing("ping", pingRounds)
+	}
+	// keep-up: free-running producers, consumer that keeps up, no Close
+	nkeep, keepN := 9, 30000
+	if o.Thorough() {
+		nkeep, keepN = 60, 200000
+	}
+	for i := 0; i < nkeep; i++ {
+		rr := r.Fork()
+		e.addKeepup("keepup", KeepupCfg{Producers: 1 + i%3, PerProd: keepN, Items: []int{1, 2, 64, 1000}[rr.Intn(4)],
+			Stride: 1 + rr.Intn(50), Procs: []int{0, 1, 2}[(i/3)%3]})
 	}
 
 	// stress
